@@ -368,6 +368,20 @@ fn cross_decode(ctx: &mut Ctx, rng: &mut Rng, handle: &DynamicColumnHandle, exp_
         if dl + 4 > col.len() { return; }
         col = &col[dl..col.len() - 4];
     }
+    if matches!(handle.column_type(), ColumnType::Bytes | ColumnType::Str) && raw.len() <= 40_000 && !exp_u64.is_empty() {
+        // the model splits the Str / Bytes column file itself (open_column_bytes) and reads the ordinals
+        let n = exp_u64.len();
+        let mut r2 = Rng(crate::report::fnv(&raw) ^ 0xC01F_11E7);
+        let docs = probe_indices(&mut r2, n, 300, 40);
+        let resp = ctx.model.ask(&format!("C08 colfilebytes {} {}", hex(&raw), nat_list(&docs.iter().map(|&d| d as u64).collect::<Vec<_>>())));
+        let flat_len: usize = exp_u64.iter().map(|r| r.len()).sum();
+        let dl = raw.len() - 4 - col.len();
+        let tail = format!(" {n} {flat_len};{}", rows_text(&docs.iter().map(|&d| exp_u64[d].clone()).collect::<Vec<_>>()));
+        if !(resp.starts_with(&format!("{dl} ")) && resp.ends_with(&tail)) {
+            modelv(ctx, "C08:bytes-column-file-cross-decode", format!("{what}: the model reading the real Str/Bytes column file gives {}, expected {dl} <card>{}", &resp[..resp.len().min(120)], &tail[..tail.len().min(120)]), case);
+        }
+        ctx.report.count("cross-decode:bytes-column-file");
+    }
     if col.len() < 5 { return; }
     let il = u32::from_le_bytes(col[col.len() - 4..].try_into().unwrap()) as usize;
     if il + 4 > col.len() || il == 0 {
